@@ -88,7 +88,7 @@ Qed.
 Theorem tr_WriteInt16_equiv : forall data tag out, -32768 <= data <= 32767 -> 0 <= tag < 256 ->
   tr_WriteInt16 data tag out = Return (out ++ w_int16 data (Z.to_N tag), false).
 Proof.
-  intros data tag out Hd Ht. unfold tr_WriteInt16, w_int16. consts.
+  intros data tag out Hd Ht. unfold tr_WriteInt16, w_int16. consts. fold_bool.
   destruct ((-128 <=? data) && (data <=? 127))%bool eqn:E.
   - rewrite wrapS_id by lia. rewrite tr_WriteInt8_equiv by lia. cbn [go_call bindc Bool.eqb negb]. reflexivity.
   - rewrite tr_WriteHead_equiv by lia. cbn [go_call bindc Bool.eqb negb].
@@ -100,7 +100,7 @@ Qed.
 Theorem tr_WriteInt32_equiv : forall data tag out, -2147483648 <= data <= 2147483647 -> 0 <= tag < 256 ->
   tr_WriteInt32 data tag out = Return (out ++ w_int32 data (Z.to_N tag), false).
 Proof.
-  intros data tag out Hd Ht. unfold tr_WriteInt32, w_int32. consts.
+  intros data tag out Hd Ht. unfold tr_WriteInt32, w_int32. consts. fold_bool.
   destruct ((-32768 <=? data) && (data <=? 32767))%bool eqn:E.
   - rewrite wrapS_id by lia. rewrite tr_WriteInt16_equiv by lia. cbn [go_call bindc Bool.eqb negb]. reflexivity.
   - rewrite tr_WriteHead_equiv by lia. cbn [go_call bindc Bool.eqb negb].
@@ -113,7 +113,7 @@ Theorem tr_WriteInt64_equiv : forall data tag out,
   -9223372036854775808 <= data <= 9223372036854775807 -> 0 <= tag < 256 ->
   tr_WriteInt64 data tag out = Return (out ++ w_int64 data (Z.to_N tag), false).
 Proof.
-  intros data tag out Hd Ht. unfold tr_WriteInt64, w_int64. consts.
+  intros data tag out Hd Ht. unfold tr_WriteInt64, w_int64. consts. fold_bool.
   destruct ((-2147483648 <=? data) && (data <=? 2147483647))%bool eqn:E.
   - rewrite wrapS_id by lia. rewrite tr_WriteInt32_equiv by lia. cbn [go_call bindc Bool.eqb negb]. reflexivity.
   - rewrite tr_WriteHead_equiv by lia. cbn [go_call bindc Bool.eqb negb].
